@@ -27,14 +27,32 @@ def my_line(text, pos):
     return n
 
 
-def rule_dicts(rules, types):
+COMMENTS = r'\(\*(?:.|\n)*?\*\)'
+EOLC = r'#[^\n]*'
+COMMENT_DIRECTIVES = [('comments', '?"' + COMMENTS + '"'), ('eol_comments', '/' + EOLC + '/')]
+
+
+def rule_dicts(rules, types, deco=None):
     out = []
     for n, x in rules:
         d = dict(name=n, exp=x)
         if n in types:
             d['params'] = (types[n],)
+        if deco and n in deco:
+            d['decorators'] = tuple(deco[n])
         out.append(d)
     return out
+
+
+def comment_layout(rnd, lexs):
+    """lexemes joined by runs of blanks, block comments and end-of-line comments in every order"""
+    runs = [' ', '\n', '  ', '(* c *)', '# e\n', '(* c *)# e\n', '# e\n(* c *)', ' (* a\nb *) # e\n  ', '(* c *) (* d *)', '# e\n# f\n']
+    out = rnd.choice(['', ''] + runs)
+    for i, lx in enumerate(lexs):
+        if i and not lx.glue:
+            out += rnd.choice(runs)
+        out += lx.text
+    return out + rnd.choice(['', '\n', ' # e'])
 
 
 def collect(x, out, depth=0):
@@ -57,14 +75,14 @@ def collect(x, out, depth=0):
                 collect(v, out, depth + 1)
 
 
-def check(rules, types, start, text, asmodel, buffer=False, model=None):
+def check(rules, types, start, text, asmodel, buffer=False, model=None, deco=None, comments=False):
     """returns (detail|None, info)"""
     from tatsu.objectmodel import Node
     rules = [(n, tup(x)) for n, x in rules]
-    rd = rule_dicts(rules, types)
+    rd = rule_dicts(rules, types, deco)
     if model is None:
         try:
-            model = tu.compile_grammar(grammar_text(rd))
+            model = tu.compile_grammar(grammar_text(rd, COMMENT_DIRECTIVES if comments else []))
         except Exception as e:
             return dict(bucket=f'compile:{type(e).__name__}', oracle='printed grammar compiles', observed=str(e)[:300]), {}
     class Mark:
@@ -74,7 +92,7 @@ def check(rules, types, start, text, asmodel, buffer=False, model=None):
 
     def actions(rule, value, params, kwparams):
         return Mark(types[rule], value) if asmodel and rule in types else value
-    ref = Ref(rules, text, actions=actions)
+    ref = Ref(rules, text, actions=actions, **(dict(comments=COMMENTS, eol_comments=EOLC) if comments else {}))
     r = ref.parse(start)
     info = dict(ref=r[0], flags=sorted(ref.flags), nodes=0, nontrivial=False)
     if r[0] != 'ok' or set(ref.flags) & {'U2', 'U7', 'U11', 'U12', 'LR'}:
@@ -83,7 +101,7 @@ def check(rules, types, start, text, asmodel, buffer=False, model=None):
         with watchdog(10):
             if buffer:
                 from tatsu.input.buffer import Buffer
-                res = model.parse(Buffer(text), start=start, parseinfo=True, asmodel=asmodel)
+                res = model.parse(Buffer(text, config=model.config), start=start, parseinfo=True, asmodel=asmodel)
             else:
                 res = model.parse(text, start=start, parseinfo=True, asmodel=asmodel)
     except CaseTimeout:
@@ -115,7 +133,8 @@ def check(rules, types, start, text, asmodel, buffer=False, model=None):
             if not ref.flags and not any(tu.canon(v) == mine for v in trace[key]):
                 return dict(bucket='dict:value', oracle='the rule invocation named by parseinfo returned this value',
                             observed=mine, reference=[tu.canon(v) for v in trace[key]][:3], key=key), info
-        if what == 'node' and not any(isinstance(v, Mark) and v.typ == type(obj).__name__ for v in trace[key]):
+        # (U1: a rule with names whose taken option bound none of them — whether it returns the AST or the value is not documented)
+        if what == 'node' and 'U1' not in ref.flags and not any(isinstance(v, Mark) and v.typ == type(obj).__name__ for v in trace[key]):
             return dict(bucket='node:rule', oracle='the rule invocation named by the node\'s parseinfo returned a node of this class '
                         '(the typed rule itself or a rule that passes it on)', observed=(key, type(obj).__name__),
                         reference=[(v.typ if isinstance(v, Mark) else repr(v)[:40]) for v in trace[key]][:4]), info
@@ -160,30 +179,36 @@ def run_shard(sh, n):
                 if rnd.random() < 0.7:
                     types[nm] = f'Pi{sh.index}x{_counter[0]}x{i}'
         start = rules[0][0]
+        # @nostak rules are left out of the call stack shown in traces and errors; their parseinfo is still their own
+        deco = {nm: ['nostak'] for nm, _ in rules[1:] if rnd.random() < 0.25}
+        comments = rnd.random() < 0.35
         try:
-            model = tu.compile_grammar(grammar_text(rule_dicts(rules, types)))
+            model = tu.compile_grammar(grammar_text(rule_dicts(rules, types, deco), COMMENT_DIRECTIVES if comments else []))
         except Exception as e:
-            sh.fail(f'compile:{type(e).__name__}', dict(kind='parseinfo', rules=rules, types=types, start=start, input='', asmodel=asmodel),
+            sh.fail(f'compile:{type(e).__name__}', dict(kind='parseinfo', rules=rules, types=types, start=start, input='', asmodel=asmodel, deco=deco, comments=comments),
                     dict(bucket=f'compile:{type(e).__name__}', observed=str(e)[:300]))
             return
         rmap = dict(rules)
-        gtext = grammar_text(rule_dicts(rules, types))
+        gtext = grammar_text(rule_dicts(rules, types, deco), COMMENT_DIRECTIVES if comments else [])
         for _ in range(5):
             lx = gen.derive(rnd, rmap, rmap[start])
-            text = rnd.choice(['', ' ', '\n', '\n\n  ', '\r\n']) + gen.layout(rnd, lx, rnd.choice(['varied', 'varied', 'base'])) + rnd.choice(['', '\n', ' '])
+            if comments:
+                text = comment_layout(rnd, lx)
+            else:
+                text = rnd.choice(['', ' ', '\n', '\n\n  ', '\r\n']) + gen.layout(rnd, lx, rnd.choice(['varied', 'varied', 'base'])) + rnd.choice(['', '\n', ' '])
             buffer = rnd.random() < 0.3
-            d, info = check(rules, types, start, text, asmodel, buffer, model)
+            d, info = check(rules, types, start, text, asmodel, buffer, model, deco, comments)
             sh.case(('pi', gtext, text, asmodel, buffer), info.get('nontrivial', False),
                     ['parseinfo', 'pi:asmodel' if asmodel else 'pi:ast', 'pi:buffer' if buffer else 'pi:textlines', f'pi:ref:{info.get("ref")}',
-                     'pi:with-nodes' if info.get('nodes') else 'pi:no-dict-or-node'],
+                     'pi:with-nodes' if info.get('nodes') else 'pi:no-dict-or-node'] + (['pi:nostak-rules'] if deco else []) + (['pi:comments'] if comments else []),
                     sample=dict(grammar=gtext, input=text, asmodel=asmodel, dicts_or_nodes=info.get('nodes')))
             if d is not None:
-                sh.fail('pi:' + d['bucket'], dict(kind='parseinfo', rules=rules, types=types, start=start, input=text, asmodel=asmodel, buffer=buffer), d)
+                sh.fail('pi:' + d['bucket'], dict(kind='parseinfo', rules=rules, types=types, start=start, input=text, asmodel=asmodel, buffer=buffer, deco=deco, comments=comments), d)
     hyp_run(sh, gen.rnds(), body, n, label='pi')
 
 
 def replay(case):
-    d, _ = check(case['rules'], case.get('types') or {}, case['start'], case['input'], case.get('asmodel', False), case.get('buffer', False))
+    d, _ = check(case['rules'], case.get('types') or {}, case['start'], case['input'], case.get('asmodel', False), case.get('buffer', False), deco=case.get('deco'), comments=bool(case.get('comments')))
     if d is not None:
         d = dict(d, bucket='pi:' + d['bucket'])
     return d
@@ -197,4 +222,5 @@ def shrink_candidates(case):
     for r2 in shrink_rules(rules):
         if r2[0][0] == case['start']:
             names = {n for n, _ in r2}
-            yield dict(case, rules=r2, types={k: v for k, v in (case.get('types') or {}).items() if k in names})
+            yield dict(case, rules=r2, types={k: v for k, v in (case.get('types') or {}).items() if k in names},
+                       deco={k: v for k, v in (case.get('deco') or {}).items() if k in names})
